@@ -35,7 +35,8 @@ TRACE_CONSTS = {"Pages": set(), "Vers": {1, 2}, "Hows": {"into", "ctor"}, "Guess
 
 QUICK_ATTR_BEH = [(1, 1, "string", "file"), (2, 2, "file", "ctor"), (1, 2, "ctor", "string"), (2, 1, "string", "ctor")]
 QUICK_STRUCT_BEH = [(1, 1, "string", "ctor"), (1, 2, "ctor", "string"), (2, 1, "file", "file"), (2, 2, "ctor", "ctor"),
-                    (1, 1, "ctor", "file"), (2, 2, "string", "string"), (1, 2, "file", "ctor"), (2, 1, "ctor", "ctor")]
+                    (1, 1, "ctor", "file", "rev"), (2, 2, "ctor", "string", "rot"), (1, 2, "ctor", "ctor", "rev"),
+                    (2, 1, "ctor", "ctor", "rot")]
 STRUCT_VIAS = [("string", "ctor"), ("ctor", "string"), ("file", "file"), ("ctor", "ctor")]
 ALL_VIAS = [(a, b) for a in ("string", "file", "ctor") for b in ("string", "file", "ctor")]
 
@@ -49,9 +50,10 @@ def spaces(ctx):
         }
     return {
         "attributes": (P.attribute_pages(ntexts=12, nconfs=7, nheights=5, ncoords=4, region_attrs=True),
-                       [(v1, v2, a, b) for v1 in (1, 2) for v2 in (1, 2) for a, b in STRUCT_VIAS]),
+                       QUICK_ATTR_BEH + [(1, 1, "ctor", "ctor"), (2, 2, "string", "string")]),
         "structure": (P.structure_pages(["r1", "r2", "r3"], 2, {"r1": 2, "r3": 1}),
-                      [(v1, v2, a, b) for v1 in (1, 2) for v2 in (1, 2) for a, b in ALL_VIAS]),
+                      [(v1, v2, a, b, pm) for (v1, v2), (a, b) in zip([(1, 1), (2, 2), (1, 2), (2, 1)] * 3, ALL_VIAS)
+                       for pm in (("id", "rev", "rot") if a == "ctor" else ("id",))]),
     }
 
 
@@ -73,8 +75,9 @@ def design(ctx, name, pages, legacy=False, expect=None, workers=4):
 def cases_of(pages, behaviours, tables=None):
     out = []
     for pg in pages:
-        for v1, v2, a, b in behaviours:
-            c = {"page": pg, "v1": v1, "v2": v2, "via1": a, "via2": b}
+        for beh in behaviours:
+            v1, v2, a, b = beh[:4]
+            c = {"page": pg, "v1": v1, "v2": v2, "via1": a, "via2": b, "perm1": beh[4] if len(beh) > 4 else "id"}
             if tables is not None:
                 c["tables"] = tables
             out.append(c)
@@ -101,7 +104,7 @@ def judge(ctx, name, cases, traces):
     for c, tr in zip(cases, traces):
         pg = c["page"]
         nontrivial = bool(pg["regions"]) and (len(pg["regions"]) > 1 or bool(pg["regions"][0]["lines"]))
-        ctx.count(1, json.dumps([pg, c["v1"], c["v2"], c["via1"], c["via2"]], sort_keys=True) if nontrivial else None)
+        ctx.count(1, json.dumps([pg, c["v1"], c["v2"], c["via1"], c["via2"], c.get("perm1", "id")], sort_keys=True) if nontrivial else None)
     ctx.sample({"space": name, "case": {k: cases[len(cases) // 2][k] for k in ("v1", "v2", "via1", "via2")},
                 "trace": slim[len(slim) // 2]}, limit=3)
     if rej:
@@ -118,8 +121,8 @@ def judge(ctx, name, cases, traces):
                     what += " (%s at call %d: %s)" % (tr["outcome"], tr.get("where", 0), tr.get("error", ""))
                     sig = "raised:%s" % tr["outcome"].split(":")[-1]
                 ctx.violation({"case": c, "trace": slim[i], "clause": bad[i], "detailed_progress": prog}, sig,
-                              "%s; space %s, behaviour v=%d/%d via=%s/%s, page regions=%s reading_order=%s" % (
-                                  what, name, c["v1"], c["v2"], c["via1"], c["via2"],
+                              "%s; space %s, behaviour v=%d/%d via=%s/%s regions-reordered-before-1st-load=%s, page regions=%s reading_order=%s" % (
+                                  what, name, c["v1"], c["v2"], c["via1"], c["via2"], c.get("perm1", "id"),
                                   [r["id"] for r in c["page"]["regions"]], c["page"]["ro"] if c["page"]["hasRO"] else None))
             else:
                 ctx.model_drift("%s: differs from PageXml at event %d, statement satisfied" % (name, prog + 1), 1,
@@ -196,8 +199,17 @@ def run(ctx):
     # self-test 2: binding - one corrupted field of an accepted execution must be rejected
     pg = P.attribute_pages(2, 2, 2, 1, False)[-1]
     P.set_workdir(ctx.workdir)
-    good = _slim(P.run_case({"page": pg, "v1": 1, "v2": 2, "via1": "string", "via2": "ctor"}))
-    ctx.selftest_corrupt("PageXml_Trace", good, _corrupt, constants=TRACE_CONSTS)
+    good = _slim(P.run_case({"page": pg, "v1": 1, "v2": 2, "via1": "string", "via2": "ctor", "perm1": "id"}))
+    before = ctx.traces_validated
+    acc, _ = ctx.validate("PageXml_Trace", [good], constants=TRACE_CONSTS, shards=1, label="PageXml_Trace selftest pristine")
+    ctx.traces_validated = before
+    if acc == 1:
+        ctx.selftest_corrupt("PageXml_Trace", good, _corrupt, constants=TRACE_CONSTS)
+    elif ctx.violations:
+        # the tree under test breaks even the single-line page used for the demonstration: nothing to corrupt
+        ctx.notes["selftest_corrupted_trace_rejected"] = "skipped: the pristine execution is itself rejected (see violations)"
+    else:
+        raise RuntimeError("self-test: pristine single-line execution rejected although no violation was reported")
     if ctx.tier == "thorough":
         # seeded concrete strings: every token class instantiated with fresh random XML-legal Unicode
         rng = random.Random(ctx.seed * 7919 + 17)
@@ -210,7 +222,8 @@ def run(ctx):
             for pg in sub:
                 v1, v2 = rng.choice([(1, 1), (1, 2), (2, 1), (2, 2)])
                 a, b = rng.choice(ALL_VIAS)
-                cases.append({"page": pg, "v1": v1, "v2": v2, "via1": a, "via2": b, "tables": tb})
+                cases.append({"page": pg, "v1": v1, "v2": v2, "via1": a, "via2": b, "perm1": rng.choice(["id", "id", "rev", "rot"]),
+                              "tables": tb})
         traces = execute(ctx, cases)
         judge(ctx, "seeded-strings", cases, traces)
     ctx.notes["explanation"] = ("TLC exhaustive on PageXml per page space (InvWritten, InvRoundTrip, InvHeld, InvFixpoint; "
